@@ -463,15 +463,9 @@ class C14(Check):
         self._reported.add(key)
         return [Failure(where, clause, detail, finding=fid)]
 
-    BFS_MSG = "BFS returns a different tree"
-
     def _refused_tree(self, st, where, ctx, exc):
-        """a valid rooted tree was refused.  Footprint of the (not yet accepted) finding D25: the refusal is the
-        constructor's own 'BFS returns a different tree' test, which compares index arrays order-sensitively."""
-        detail = "%s is a tree rooted there but was refused: %r" % (ctx, exc)
-        if self.BFS_MSG in str(exc):
-            return self._known(st, "D25", where, "refused-tree", detail)
-        return [Failure(where, "refused-tree", detail)]
+        """a valid rooted tree was refused by the (checked) Tree / PointTree constructor: always a failure."""
+        return [Failure(where, "refused-tree", "%s is a tree rooted there but was refused: %r" % (ctx, exc))]
 
     def _op_built(self, st):
         if st["refused"] is None:
@@ -909,7 +903,7 @@ class C14(Check):
             "[interp] an all-false mask may be refused (ValueError) or give an empty graph",
             "[interp] a tree mask that leaves only the root may be refused (menpo has no one-vertex tree)",
             "[interp] what the Tree constructor does with edges that are NOT a tree rooted at the given root is not judged (Tree([[0,1]], root 1) is accepted)",
-            "D25 footprint (not in known_findings.json at the time of writing): a valid rooted tree refused with 'BFS returns a different tree'",
+            "every rooted tree is built through the checked constructors (skip_checks is never passed by the check); a refused valid tree is a failure",
             "families (chains, cycles, stars, complete graphs, grids, binary trees, <= 40 vertices) replace 'random graphs'; beyond 12 vertices they use structured masks and 6 MST roots, not every mask / root",
             "largest scope (undirected n=5, directed n=4): the point-carrying class is built from the weighted csr letter only and its inherited find_path / find_shortest_path are explored on mask results only (they are explored on the abstract class of every graph)",
             "shortest-path algorithm letters use scipy's names (FW, D, BF, J): the names in menpo's docstring are rejected by the installed scipy",
